@@ -31,8 +31,8 @@ FINDINGS = [
       r"lang=go class=unused-import:strconv:in-types trig=[^ ]*dict\.nonScalar\.noArray",
       "c02-known lab/KB01: (defs \"Root\" (\"Root\" (struct (field \"a\" (dict (ref \"S\")) false false -))) (\"S\" (struct (field \"p\" (string - - false) true false -)))) flags 111100"),
     F("go/unused-import-fmt-union-marshaller-without-strict",
-      "a union's custom MarshalJSON/UnmarshalJSON templates import fmt, which only the strict unmarshaller uses: with generate_json_marshaller on and the strict unmarshaller off (or disabled by skip_runtime) every schema with a union fails with `\"fmt\" imported and not used`",
-      r"lang=go class=unused-import:fmt:in-types trig=[^ ]*union[^\t]* go=1(0[01]{4}|[01]{4}1) ",
+      "a union's custom MarshalJSON/UnmarshalJSON templates import fmt (and errors, for a discriminated union of references), which only the strict unmarshaller uses: with generate_json_marshaller on and the strict unmarshaller off (or disabled by skip_runtime) every schema with a union fails with `\"fmt\" imported and not used`",
+      r"lang=go class=unused-import:(fmt|errors):in-types trig=[^ ]*union[^\t]* go=1(0[01]{4}|[01]{4}1) ",
       "c02-known go/unused-import-fmt…: (defs \"Root\" (\"Root\" (struct (field \"a\" (oneOfScalars (string - - false) (bool)) true false -)))) flags 101100 and 111101"),
     F("go/unused-import-errors-skip-runtime",
       "skip_runtime leaves `errors` imported by the validation/equality templates without the runtime code that uses it: `\"errors\" imported and not used`",
